@@ -238,6 +238,12 @@ def verify(contract, case=None, max_seconds=None):
                 res.undecided.append(("internal: NeedFork escaped: %s" % e, list(st.trace)))
             except (Unsupported, UnsupportedOp, NumericUndecided, TooManyLeaves, NotImplementedError) as e:
                 res.undecided.append(("%s: %s" % (type(e).__name__, e), list(st.trace)))
+                # what already happened on this (feasible) path prefix still counts: global
+                # writes, output, hash-order traversals recorded before the unsupported construct
+                try:
+                    check_frame(ctx, contract)
+                except Exception:  # noqa
+                    pass
             except RecursionError:
                 res.undecided.append(("recursion limit", list(st.trace)))
         except Exception as e:  # noqa: checker crash on this path
